@@ -27,6 +27,7 @@ struct Session {
     SessionSpec spec;
     bool fv_set = false;
     bool solved = false;	// holds a solved, not yet added calibration
+    SessionSpec solved_spec;	// the standards that calibration was solved from (standards added later do not change it)
     int failed_solves = 0;
     std::vector<int> added_params;	// indices of parameters used by accepted standards
     bool tainted = false;		// an add failed under an injected fault: registrations it left behind are C12's business
@@ -624,7 +625,7 @@ static void run_op(CalWorld &w, const Op &op, const Plan &plan)
 	    if (clearly_missed) { c.violate("model", "add:range", "a vector standard missing the calibration band by more than 5% was accepted"); return; }
 	    s.spec.stds.push_back(st);
 	    for (size_t q = 0; q < pidx.size(); ++q) { s.added_params.push_back(pidx[q]); s.handle_map.emplace(handles[q], pidx[q]); }
-	    s.solved = false;
+	    // (the library keeps an already solved calibration until the next successful solve)
 	    c.count(strf("add.kind%d.variant%d.%s", st.kind, st.variant, st.full ? "full" : "abbr"));
 	    if (any_unknown) c.count("probe.unknown_standard");
 	} else {
@@ -652,7 +653,7 @@ static void run_op(CalWorld &w, const Op &op, const Plan &plan)
 	c.log(" solve class=%d -> %d errno=%s %s", cls, rc, rc ? errno_name(e) : "-", msg.c_str());
 	if (c.violated) return;
 	c.count(strf("solve.class%d.%s", cls, rc == 0 ? "ok" : "fail"));
-	if (fired) { if (rc != 0 && e != ENOMEM && e != EDOM && e != EINVAL) c.violate("model", "solve:errno", strf("solve failed under an allocation fault with errno %s", errno_name(e))); if (rc != 0) { ++s.failed_solves; c.count("probe.solve_failed_by_fault"); } else s.solved = true; return; }
+	if (fired) { if (rc != 0 && e != ENOMEM && e != EDOM && e != EINVAL) c.violate("model", "solve:errno", strf("solve failed under an allocation fault with errno %s", errno_name(e))); if (rc != 0) { ++s.failed_solves; c.count("probe.solve_failed_by_fault"); } else { s.solved = true; s.solved_spec = s.spec; } return; }
 	if (!s.fv_set) { if (rc == 0) c.violate("model", "solve:rc", "solve succeeded before the frequency vector was set"); else if (e != EINVAL) c.violate("model", "solve:errno", strf("solve without frequency vector: errno %s", errno_name(e))); return; }
 	if (rc != 0) {
 	    ++s.failed_solves;
@@ -666,6 +667,7 @@ static void run_op(CalWorld &w, const Op &op, const Plan &plan)
 	}
 	if (cls == 2) { c.violate("model", "solve:insufficient", strf("solve succeeded with fewer measured values than unknown error terms (%zu standards)", s.spec.stds.size())); return; }
 	s.solved = true;
+	s.solved_spec = s.spec;
 	if (s.failed_solves > 0) c.count("probe.solve_after_failures");
 	// unknown parameters of this session now carry solved values over the session's band
 	for (int pi : s.added_params) {
@@ -688,10 +690,11 @@ static void run_op(CalWorld &w, const Op &op, const Plan &plan)
 	if (!s.solved) { c.violate("model", "addcal:rc", "vnacal_add_calibration accepted a vnacal_new_t without a solved calibration"); return; }
 	std::vector<ParamSpec> pl; for (auto &lp : w.params) pl.push_back(lp.spec);
 	CalSlot slot;
-	slot.ci = ci; slot.name = name; slot.spec = s.spec; slot.params = pl;
-	slot.determining = classify(s.spec, pl) == 1;
-	for (auto &st : s.spec.stds) for (int pi : st.params) if (!pl[(size_t)pi].known()) slot.has_unknown = true;
-	for (auto &st : s.spec.stds) for (int pi : st.params) if (pl[(size_t)pi].kind == 2) slot.has_vector = true;
+	if (s.solved_spec.stds.size() != s.spec.stds.size()) c.count("probe.addcal_after_later_standards");
+	slot.ci = ci; slot.name = name; slot.spec = s.solved_spec; slot.params = pl;
+	slot.determining = classify(s.solved_spec, pl) == 1;
+	for (auto &st : s.solved_spec.stds) for (int pi : st.params) if (!pl[(size_t)pi].known()) slot.has_unknown = true;
+	for (auto &st : s.solved_spec.stds) for (int pi : st.params) if (pl[(size_t)pi].kind == 2) slot.has_vector = true;
 	auto it = w.table.find(name);
 	if (it != w.table.end()) { c.count("probe.replace_by_name"); if (it->second.ci != ci) c.count("probe.replace_moved_slot"); w.table.erase(it); }
 	for (auto &kv : w.table) if (kv.second.ci == ci) { c.violate("model", "addcal:index", strf("add_calibration(\"%s\") returned index %d which holds live calibration \"%s\"", name.c_str(), ci, kv.second.name.c_str())); return; }
